@@ -52,6 +52,12 @@ pub enum Op {
     /// debugging aid: record get_mapping() of a guest block as a Note
     #[serde(rename = "map")]
     Map { gb: u64 },
+    /// allocator histories (hook H3): allocate `n` clusters / free the
+    /// `idx`-th live allocation made through this op
+    #[serde(rename = "alloc")]
+    Alloc { n: usize },
+    #[serde(rename = "free_alloc")]
+    FreeAlloc { idx: usize },
     #[serde(rename = "reopen")]
     Reopen {
         #[serde(default)]
@@ -128,6 +134,12 @@ pub struct Scenario {
     /// sample need_flush_meta()/ram state at every scheduler step
     #[serde(default)]
     pub sample_flag: bool,
+    /// record the in-ram metadata view (hook H1) at every scheduler step
+    #[serde(default)]
+    pub sample_ram: bool,
+    /// C08: the host file must not grow beyond this many clusters (0 = no bound)
+    #[serde(default)]
+    pub bound_clusters: usize,
 }
 
 pub struct Sink {
@@ -239,6 +251,8 @@ pub struct Runner {
     pub panicked: bool,
     pub dev_ro: bool,
     pub max_conc: usize,
+    /// live allocations made through the allocator hook: (offset, clusters)
+    pub allocs: Rc<RefCell<Vec<(u64, usize)>>>,
 }
 
 fn mk_params(bsb: u32, p: &Params, ro: bool) -> Qcow2DevParams {
@@ -341,6 +355,85 @@ pub fn chain_truth_sized(
     (toks, kinds)
 }
 
+/// The in-ram view of the metadata as an overlay on the visible file:
+/// header fields, L1 table, refcount table, cached slices; clusters in the
+/// new-cluster set are (logically) zero
+pub fn ram_event(snap: &qcow2_rs::dev::VerifSnapshot, world: &WorldRef, sink: &SinkRef) -> Value {
+    let w = world.borrow();
+    let file = &w.files[0].data;
+    let mut s = sink.borrow_mut();
+    let g = s.geom;
+    let bs = g.bs();
+    let mut img = file.clone();
+    let mut touched: Vec<(usize, usize)> = Vec::new();
+    let mut put = |img: &mut Vec<u8>, off: u64, d: &[u8], touched: &mut Vec<(usize, usize)>| {
+        let off = off as usize;
+        if off > (1 << 28) {
+            return;
+        }
+        if img.len() < off + d.len() {
+            img.resize((off + d.len()).div_ceil(bs) * bs, 0);
+        }
+        img[off..off + d.len()].copy_from_slice(d);
+        touched.push((off / bs, (off + d.len()).div_ceil(bs)));
+    };
+    let complete = snap.l1.is_some() && snap.reftable.is_some() && snap.new_clusters.is_some()
+        && snap.busy_slices == 0 && snap.l1_offset.is_some() && snap.reftable_offset.is_some();
+    if let Some(nc) = &snap.new_clusters {
+        for c in nc {
+            let z = vec![0u8; g.cs()];
+            put(&mut img, c << g.cb, &z, &mut touched);
+        }
+    }
+    if img.len() >= 72 {
+        let mut h = img[..bs.min(img.len())].to_vec();
+        if let Some(o) = snap.l1_offset {
+            h[36..40].copy_from_slice(&(snap.l1_entries as u32).to_be_bytes());
+            h[40..48].copy_from_slice(&o.to_be_bytes());
+        }
+        if let Some(o) = snap.reftable_offset {
+            h[48..56].copy_from_slice(&o.to_be_bytes());
+            h[56..60].copy_from_slice(&(snap.reftable_clusters as u32).to_be_bytes());
+        }
+        put(&mut img, 0, &h, &mut touched);
+    }
+    if let (Some(o), Some(d)) = (snap.l1_offset, &snap.l1) {
+        put(&mut img, o, d, &mut touched);
+    }
+    if let (Some(o), Some(d)) = (snap.reftable_offset, &snap.reftable) {
+        put(&mut img, o, d, &mut touched);
+    }
+    for sl in snap.l2_slices.iter().chain(snap.rb_slices.iter()) {
+        if let Some(o) = sl.offset {
+            put(&mut img, o, &sl.data, &mut touched);
+        }
+    }
+    let mut ov = serde_json::Map::new();
+    ov.insert("n".into(), json!(["z", 0]));
+    let mut maxb = 0;
+    for (a, b) in touched {
+        for blk in a..b {
+            let cur = &img[blk * bs..(blk + 1) * bs];
+            let same = file.len() >= (blk + 1) * bs && &file[blk * bs..(blk + 1) * bs] == cur;
+            let beyond_zero = file.len() < (blk + 1) * bs && cur.iter().all(|x| *x == 0) && file.len() <= blk * bs;
+            if !same && !beyond_zero {
+                let ab = s.intern.classify(cur, blk == 0);
+                ov.insert(blk.to_string(), ab.json());
+                maxb = maxb.max(blk + 1);
+            }
+        }
+    }
+    while s.maxb.is_empty() {
+        s.maxb.push(0);
+    }
+    if s.maxb[0] < maxb {
+        s.maxb[0] = maxb;
+    }
+    json!({"e":"Ram","ov":ov,"complete": if complete {1} else {0},
+           "hint": snap.free_cluster_offset >> g.cb, "nf": if snap.need_flush {1} else {0},
+           "dirty": snap.l2_slices.iter().chain(snap.rb_slices.iter()).filter(|x| x.dirty).count()})
+}
+
 impl Runner {
     pub fn new(sc: Scenario, next_id: i64) -> Result<Self, String> {
         let bs = 1usize << sc.bsb;
@@ -422,6 +515,7 @@ impl Runner {
                 "bsz": geom.bs(), "vszb": geom.vsize >> 9});
             s.push(json!({"e":"Reset","name": sc.name, "g": gj, "devs": devs, "init": toks, "btok": btok, "maxb": 0,
                 "src": match &sc.images[0] { ImageSrc::Format{..} => "format", _ => "build" },
+                "bound": sc.bound_clusters * geom.bpc(),
                 "par": if sc.steps.iter().any(|o| matches!(o, Op::Par{..})) {1} else {0},
                 "kind": kinds, "comp": comp, "back": if n > 1 {1} else {0},
                 "punch_unsupported": if sc.punch_unsupported {1} else {0}}));
@@ -449,6 +543,7 @@ impl Runner {
             panicked: false,
             dev_ro: top_ro,
             max_conc: 0,
+            allocs: Rc::new(RefCell::new(Vec::new())),
         };
         let p = r.sc.params.clone();
         let bsb = r.sc.bsb;
@@ -594,6 +689,12 @@ impl Runner {
                 json!({"e":"Call","id":id,"t":id,"op":"discard","gb":dgb,"n":dn,"wid":wid,"inner":1,
                        "cls": self.classes(o, l), "raw":[off, len]})
             }
+            Op::Alloc { n } => json!({"e":"Call","id":id,"t":id,"op":"alloc","gb":0,"n":n,"wid":0,"cls":self.classes(0,0)}),
+            Op::FreeAlloc { idx } => {
+                let a = self.allocs.borrow();
+                let (c, n) = if a.is_empty() { (0, 0) } else { let x = a[idx % a.len()]; ((x.0 >> self.geom.cb) as usize, x.1) };
+                json!({"e":"Call","id":id,"t":id,"op":"free","gb":c,"n":n,"wid":0,"cls":self.classes(0,0)})
+            }
             Op::Flush => json!({"e":"Call","id":id,"t":id,"op":"flush","gb":0,"n":0,"wid":0,"cls":self.classes(0,0)}),
             Op::Fsync => json!({"e":"Call","id":id,"t":id,"op":"fsync","gb":0,"n":0,"wid":0,"cls":self.classes(0,0)}),
             Op::Shrink => json!({"e":"Call","id":id,"t":id,"op":"shrink","gb":0,"n":0,"wid":0,"cls":self.classes(0,0)}),
@@ -623,6 +724,7 @@ impl Runner {
             for (op, cj, wid) in metas.into_iter() {
                 let id = cj["id"].as_u64().unwrap() as usize;
                 let sink2 = sink.clone();
+                let allocs2 = self.allocs.clone();
                 let mk = Box::new(move || {
                     sink2.borrow_mut().push(cj);
                     let sink3 = sink2.clone();
@@ -737,6 +839,31 @@ impl Runner {
                                 Ok(()) => ret("ok", 0, vec![], String::new()),
                                 Err(e) => ret("err", 0, vec![], format!("{e:?}")),
                             },
+                            Op::Alloc { n } => match devr.verif_allocate_clusters(n).await {
+                                Ok(Some((off, cnt))) => {
+                                    allocs2.borrow_mut().push((off, cnt));
+                                    sink3.borrow_mut().push(json!({"e":"Ret","id":id,"res":"ok","n":cnt,"toks":[],"msg":"","c": off >> geom.cb, "ua": off & ((1u64 << geom.cb) - 1)}));
+                                }
+                                Ok(None) => ret("err", 0, vec![], "nothing allocated".into()),
+                                Err(e) => ret("err", 0, vec![], format!("{e:?}")),
+                            },
+                            Op::FreeAlloc { idx } => {
+                                let pick = {
+                                    let mut a = allocs2.borrow_mut();
+                                    if a.is_empty() { None } else { let k = idx % a.len(); Some(a.remove(k)) }
+                                };
+                                match pick {
+                                    None => {
+                                        sink3.borrow_mut().push(json!({"e":"Ret","id":id,"res":"ok","n":0,"toks":[],"msg":"nothing to free","c":0,"ua":0}));
+                                    }
+                                    Some((off, cnt)) => match devr.verif_free_clusters(off, cnt).await {
+                                        Ok(()) => {
+                                            sink3.borrow_mut().push(json!({"e":"Ret","id":id,"res":"ok","n":cnt,"toks":[],"msg":"","c": off >> geom.cb, "ua": 0}));
+                                        }
+                                        Err(e) => ret("err", 0, vec![], format!("{e:?}")),
+                                    },
+                                }
+                            }
                             Op::Check => match devr.check().await {
                                 Ok(()) => ret("ok", 0, vec![], String::new()),
                                 Err(e) => ret("err", 0, vec![], format!("{e:?}")),
@@ -748,7 +875,19 @@ impl Runner {
                 });
                 ex.enqueue(id, mk);
             }
-            if self.sc.sample_flag {
+            if self.sc.sample_ram {
+                let sink4 = sink.clone();
+                let w4 = self.world.clone();
+                ex.on_step = Some(Box::new(move |_e| {
+                    let snap = devr.verif_snapshot();
+                    let ev = ram_event(&snap, &w4, &sink4);
+                    let mut s = sink4.borrow_mut();
+                    let same = s.ev.iter().rev().find(|v| v["e"] == "Ram").map(|v| *v == ev).unwrap_or(false);
+                    if !same {
+                        s.push(ev);
+                    }
+                }));
+            } else if self.sc.sample_flag {
                 let sink4 = sink.clone();
                 ex.on_step = Some(Box::new(move |_e| {
                     let nf = devr.need_flush_meta();
